@@ -681,7 +681,102 @@ fn shape_batches<P: G>(cfg: Cfg) -> Box<dyn Case> {
                             format!("batch [{}, {}] in {}: library says {} but the reference verdicts of the members are [{}, {}]", kinds[a].0, kinds[b].0, mode_name(mode), obs.describe(), oka, okb),
                         );
                     }
+                    // the same two members with ONE transcript: a member nobody derived challenges for was not verified, so
+                    // the call must not report success when that member does not satisfy the relation
+                    if !(*oka && *okb) {
+                        let mut ts1 = vec![CTX_A.transcript()];
+                        let short = verify_observed(&sts, &proofs, &mut ts1, mode);
+                        res.executions += 1;
+                        *res.outcome_counter(if short.is_ok() { "batch-accept" } else { "batch-reject" }) += 1;
+                        if short.is_ok() {
+                            res.violate(
+                                format!("[{},{}]/{}/one-transcript", kinds[a].0, kinds[b].0, mode_name(mode)),
+                                format!("batch [{}, {}] submitted with a single transcript was accepted although the reference verdicts of the members are [{}, {}]", kinds[a].0, kinds[b].0, oka, okb),
+                            );
+                        }
+                    }
                 }
+            }
+        }
+        res
+    })
+}
+
+/// Shape (i): a statement one of whose commitments is the identity element (value 0 under the zero mask), proved by the
+/// REFERENCE prover: the relation holds, so the library verifier accepts (alone; the library prover's view is C01 / C06's)
+fn shape_identity_commitment<P: G>(cfg: Cfg) -> Box<dyn Case> {
+    case(format!("{}/{}/identity-commitment(reference prover)", P::NAME, cfg.key()), move |_v| {
+        fg::clear_intern();
+        let mut res = CaseResult::new("explored");
+        if cfg.rounds() == 0 {
+            return res;
+        }
+        let mut wit = Wit::default_for(&cfg);
+        let j = cfg.m - 1;
+        wit.values[j] = 0;
+        wit.promises[j] = None;
+        wit.blindings[j] = vec![Scalar::ZERO; cfg.d];
+        let params = params_cached::<P>(&cfg);
+        // commitments computed by hand (v*H + sum r_k*G_k), the statement through the validating constructor
+        let pc = params.pc_gens().clone();
+        let commitments: Vec<P> = wit
+            .values
+            .iter()
+            .zip(wit.blindings.iter())
+            .map(|(v, r)| {
+                let mut acc = pc.h_base.g_mul(&Scalar::from(*v));
+                for (k, x) in r.iter().enumerate() {
+                    acc = acc.g_add(&pc.g_base_vec[k].g_mul(x));
+                }
+                acc
+            })
+            .collect();
+        let st = match catch(|| P::statement(params.clone(), commitments, wit.promises.clone(), None)) {
+            Ok(Ok(s)) => s,
+            _ => {
+                res.outcome = "statement-refused(skipped)".into();
+                return res;
+            },
+        };
+        let rst = ref_statement(&st);
+        let nonces = Nonces {
+            alpha: (0..cfg.d).map(|k| wide_scalar("ia", k as u64, 0)).collect(),
+            dl: (0..cfg.rounds()).map(|r| (0..cfg.d).map(|k| wide_scalar("il", r as u64, k as u64)).collect()).collect(),
+            dr: (0..cfg.rounds()).map(|r| (0..cfg.d).map(|k| wide_scalar("ir", r as u64, k as u64)).collect()).collect(),
+            delta: (0..cfg.d).map(|k| wide_scalar("id", k as u64, 0)).collect(),
+            eta: (0..cfg.d).map(|k| wide_scalar("ie", k as u64, 0)).collect(),
+            r: wide_scalar("ir1", 0, 0),
+            s: wide_scalar("is1", 0, 0),
+        };
+        let digits = match refbp::honest_digits(cfg.n, &wit.values, &wit.promises) {
+            Some(d) => d,
+            None => return res,
+        };
+        let mut t = CTX_A.transcript();
+        let out = refbp::ref_prove(&mut t, &rst, &digits, &wit.blindings, &nonces);
+        let mut t = CTX_A.transcript();
+        if !refbp::ref_verify(&mut t, &rst, &out.proof).verdict.accepts() {
+            res.machinery_error("the reference verifier rejects the reference prover's proof");
+            return res;
+        }
+        let proof = match P::from_bytes(&refbp::ref_encode(&out.proof)) {
+            Ok(p) => p,
+            Err(_) => {
+                *res.outcome_counter("lib-decode-refused") += 1;
+                return res;
+            },
+        };
+        for mode in [VerifyAction::VerifyOnly, VerifyAction::RecoverAndVerify] {
+            let obs = verify_observed_one(&st, &proof, &CTX_A, mode);
+            res.executions += 1;
+            res.validated += 1;
+            res.transitions += 1;
+            *res.outcome_counter(if obs.is_ok() { "lib-accept" } else { "lib-reject" }) += 1;
+            if !obs.is_ok() {
+                res.violate(
+                    mode_name(mode),
+                    format!("a proof that satisfies the relation for a statement with an identity commitment (position {}) is not accepted: {}", j, obs.describe()),
+                );
             }
         }
         res
@@ -791,7 +886,7 @@ fn shape_long_batch<P: G>(len: usize) -> Box<dyn Case> {
 pub fn run(rep: &mut Report) {
     rep.rule = "configuration lattice x proof shapes {honest, every single mutation of the wire form, generic (symbolic) proofs x \
                 response-scalar alphabet x promise alphabet, dishonest-witness proofs from the reference prover (v-p in {-1,2^n,2^n+1}, \
-                one non-bit digit at each position), wrong round counts / degrees, batches of 257 / 513 with one false member at 0, 100, 255, 256 and last, 2-member batches over {honest, d1[k]+/-delta (cancel under equal weights), r1+1, re-encoded under degree+/-1, an honest member of another aggregation size}^2} x environment deviations {zero challenge at each \
+                one non-bit digit at each position), wrong round counts / degrees, batches of 257 / 513 with one false member at 0, 100, 255, 256 and last, 2-member batches over {honest, d1[k]+/-delta (cancel under equal weights), r1+1, re-encoded under degree+/-1, an honest member of another aggregation size}^2 (also submitted with a single transcript), a reference-prover proof for a statement holding an identity commitment} x environment deviations {zero challenge at each \
                 draw, identity at each commitment generator}; oracle = verdict equality with the reference relation and (over F) \
                 equality of the compared element with weight x reference linear form as a coefficient vector"
         .into();
@@ -808,6 +903,9 @@ pub fn run(rep: &mut Report) {
         cases.push(shape_wrong_shape::<F>(*cfg));
         cases.push(env_deviations::<F>(*cfg));
         cases.push(shape_batches::<F>(*cfg));
+        if cfg.big_n() <= 256 {
+            cases.push(shape_identity_commitment::<F>(*cfg));
+        }
     }
     // Ristretto: verdict comparison on the quick lattice in both tiers (R's verifier is unoptimised)
     for cfg in lattice_quick() {
@@ -819,6 +917,7 @@ pub fn run(rep: &mut Report) {
         cases.push(env_deviations::<RistrettoPoint>(cfg));
         if cfg.big_n() <= 64 {
             cases.push(shape_batches::<RistrettoPoint>(cfg));
+            cases.push(shape_identity_commitment::<RistrettoPoint>(cfg));
         }
     }
     for d in [1usize, 2, 6] {
